@@ -45,6 +45,9 @@ MANIFEST = dict(
          'nothing_new_nothing_scheduled, bump_reschedules_exactly_owner — for every engine, every persisted '
          'table, every bump.  The model is tied to the real pl.version.current / persistent / schedule.build '
          '(and the real shelve versions()/update()) by a correspondence run on generated engines on every check, '
+         'including reload histories where the real next_job_batch/complete leave units executing with targets still '
+         'owed when the next build comes (every queue entry, also one that is not a node of the new graph, must be '
+         'due), '
          'the generated Version functions by an exhaustive grid [0,3]^3 x [0,3]^3 plus large random triples '
          'against real dawgie.Version objects.',
     note='Trusted: Lean kernel; axioms propext/Classical.choice/Quot.sound only; tools/gen_c15.py; the harness '
@@ -366,6 +369,8 @@ class Fakes:
         sys.modules['dawgie.db.c15fake'] = self.backend
         self.tmp = tempfile.mkdtemp(prefix='c15db')
         self.dbn = 0
+        self.orig_dbs = dawgie.context.data_dbs
+        dawgie.context.data_dbs = self.tmp  # schedule.complete journals into <data_dbs>/chronicles
 
     def use_fake(self, tables, targets):
         import dawgie.context
@@ -396,6 +401,7 @@ class Fakes:
             pass
         dawgie.pl.dag.Construct.graph = self.orig_graph
         dawgie.context.db_impl = self.orig_impl
+        dawgie.context.data_dbs = self.orig_dbs
         sys.modules.pop('dawgie.db.c15fake', None)
         shutil.rmtree(self.tmp, ignore_errors=True)
         logging.disable(logging.NOTSET)
@@ -406,7 +412,7 @@ def observe():
     """que tags, and for every node reachable in ae.at (plus those in que): todo, factory kind"""
     import dawgie.pl.schedule as schedule
 
-    nodes, stack = {}, list(schedule.ae.at) + list(schedule.que)
+    nodes, stack = {}, list(schedule.ae.at)  # the graph of this load; queue entries are added below
     while stack:
         n = stack.pop()
         if n.tag in nodes and nodes[n.tag] is n:
@@ -418,7 +424,15 @@ def observe():
     for n in list(nodes.values()) + list(schedule.que):
         t = n.get('todo')
         todo[n.tag] = sorted(t) if t is not None else []
-    return {'que': que, 'todo': todo}
+    # queue entries that are not nodes of the graph this load built (left over from an earlier load)
+    graph, stack = [], list(schedule.ae.at)
+    while stack:
+        n = stack.pop()
+        if not any(n is g for g in graph):
+            graph.append(n)
+            stack.extend(list(n))
+    stale = sorted(n.tag for n in schedule.que if not any(n is g for g in graph))
+    return {'que': que, 'todo': todo, 'stale': stale}
 
 
 def vstr(v):
@@ -473,9 +487,18 @@ def judge(res, spec, vers, persisted, targets, obs, replay):
             res.hit(f'C15:todo:{nodes[tag][0]}',
                     f'{tag} ({nodes[tag][0]}) was rescheduled with todo {obs["todo"].get(tag)} instead of {want}', replay)
     for tag in sorted(que - set(exp)):
+        if not obs['todo'].get(tag):
+            continue  # an entry without pending targets schedules nothing (what it still executes is C03/C04)
         ok = False
         what = 'every current version of it is persisted' if tag in nodes else 'it is not an algorithm of the engine'
-        res.hit('C15:spurious-reschedule', f'{tag} is in schedule.que after build although {what}', replay)
+        res.hit('C15:spurious-reschedule', f'{tag} is in schedule.que after build with todo {obs["todo"].get(tag)} '
+                f'although {what}', replay)
+    for tag in obs.get('stale', []):
+        if not obs['todo'].get(tag):
+            continue
+        ok = False
+        res.hit('C15:stale-entry', f'queue entry {tag} (todo {obs["todo"].get(tag)}) is not a node of the task graph '
+                'this load built: it survived the reload from an earlier load', replay)
     for tag, todo in obs['todo'].items():
         if tag not in que and todo:
             ok = False
@@ -542,6 +565,35 @@ def _record(eng, spec, tags, vers, log):
                 log[cls].setdefault(name, set()).add(vstr(vers[name]))
 
 
+def farm(eng, spec, acts, vers, log, stream, res):
+    """what dawgie.pl.farm does between two loads, on the real scheduler: `dispatch` takes the real
+    next_job_batch() and marks the batch running (farm.dispatch); `complete` books one returned
+    (job, target) through the real schedule.complete (Hand._res), the worker having recorded its
+    versions first (shelve stream).  Acts that do not apply to the state reached are skipped."""
+    import dawgie.pl.schedule as schedule
+    from dawgie.pl.jobinfo import State
+
+    for act in acts:
+        if act['act'] == 'dispatch':
+            for j in schedule.next_job_batch():
+                j.set('status', State.running)
+                j.get('do').clear()
+        else:
+            pairs = sorted((j.tag, t) for j in schedule.que for t in j.get('doing'))
+            if not pairs:
+                continue
+            jt, target = pairs[act['pick'] % len(pairs)]
+            if stream == 'shelve':
+                _record(eng, spec, {jt}, vers, log)
+            schedule.complete(schedule.find(jt), 1, target, {'started': '11-13-17 23:29:31'}, State.success)
+    for j in schedule.que:
+        if j.get('status') is State.running and j.get('doing') and j.get('todo'):
+            res.count('reload:running+doing+todo')
+            break
+    else:
+        res.count('reload:other')
+
+
 def execute(fk, spec, stream, steps, res, lines=None, pending=None, tag='gen', shrink=True):
     """run `steps` on a freshly written engine; monitor every build; queue model lines"""
     from dawgie.db.shelve import util as sutil
@@ -568,6 +620,10 @@ def execute(fk, spec, stream, steps, res, lines=None, pending=None, tag='gen', s
                 continue
             if st['op'] == 'record':
                 _record(eng, spec, set(st['algs']), vers, log)
+                continue
+            if st['op'] == 'farm':
+                if schedule.ae is not None:
+                    farm(eng, spec, st['acts'], vers, log, stream, res)
                 continue
             if stream == 'tables':
                 fk.use_fake(tuple(st['prev']), list(st['targets']))
@@ -771,6 +827,90 @@ def gen_shelve_steps(r, spec, n):
     return steps
 
 
+def gen_acts(r):
+    acts = [{'act': 'dispatch'}]
+    for _ in range(r.choice([1, 2, 3, 5, 8])):
+        acts.append({'act': 'dispatch'} if r.random() < 0.45 else {'act': 'complete', 'pick': r.randrange(64)})
+    if r.random() < 0.7:
+        acts.append({'act': 'dispatch'})
+    return acts
+
+
+def gen_reload_steps(r, spec, stream):
+    """reload histories: load, the farm works for a while (units executing, some targets still
+    owed), versions get persisted, software update, load again while work is in flight"""
+    vers = dict(spec['vers'])
+    tg = r.sample(TARGETS, r.choice([2, 3, 3, 4]))
+    steps = [{'op': 'targets', 'names': tg}] if stream == 'shelve' else []
+    first, old = True, vers
+    for _ in range(r.choice([1, 2, 3])):
+        st = {'op': 'build', 'vers': vers}
+        if stream == 'tables':
+            # everything (first load) or the bumped items are unknown to the persisted tables
+            st['prev'] = (full_prev(spec, old) if not first
+                          else [{}, {}, {}, {}] if r.random() < 0.7 else gen_prev(r, spec, vers))
+            st['targets'] = tg
+        steps.append(st)
+        steps.append({'op': 'farm', 'acts': gen_acts(r)})
+        if stream == 'shelve' and r.random() < 0.6:
+            tags = sorted(items_of(spec))
+            if tags:
+                steps.append({'op': 'record', 'algs': r.sample(tags, r.randrange(1, len(tags) + 1))})
+        old, first = vers, False
+        vers = bump(r, spec, vers) if r.random() < 0.8 else vers
+    st = {'op': 'build', 'vers': vers}
+    if stream == 'tables':
+        st['prev'], st['targets'] = full_prev(spec, old), tg
+    steps.append(st)
+    return steps
+
+
+def chain_spec(pattern):
+    """a -> b -> d, a -> c -> r (regression) -> e (analysis): units with an ancestor in the queue are
+    released target by target, so they are found executing one target and owing others"""
+    def alg(name, kind, deps):
+        return {'task': 'eng', 'name': name, 'kind': kind, 'svs': [{'name': 'sv', 'values': ['x']}],
+                'deps': [{'alg': d, 'ref': 'sv', 'sv': 0} for d in deps]}
+
+    spec = {'pattern': pattern, 'algs': [alg('a', 'task', []), alg('b', 'task', [0]), alg('c', 'task', [0]),
+                                         alg('d', 'task', [1]), alg('r', 'regress', [2]), alg('e', 'analysis', [4])],
+            'vers': {}}
+    for name in all_names(spec):
+        spec['vers'][name] = [1, 1, 0]
+    return spec
+
+
+def reload_corpus():
+    """a reload while work is in flight: a and b bumped, a executing T3, b executing T2 and owing T3,
+    both recorded meanwhile; then only d is bumped and the pipeline reloads"""
+    out = []
+    tg = ['T1', 'T2', 'T3']
+    acts = [{'act': 'dispatch'}, {'act': 'complete', 'pick': 0}, {'act': 'dispatch'},
+            {'act': 'complete', 'pick': 2}, {'act': 'complete', 'pick': 0}, {'act': 'dispatch'}]
+    for pattern in ('dep', 'adv'):
+        spec = chain_spec(pattern)
+        v0 = spec['vers']
+        v1 = dict(v0, **{'eng.a': [1, 2, 0], 'eng.b': [1, 2, 0]})
+        v2 = dict(v1, **{'eng.d': [1, 1, 1]})
+        out.append(('tables', spec, [
+            {'op': 'build', 'vers': v0, 'prev': full_prev(spec, v0), 'targets': tg},
+            {'op': 'build', 'vers': v1, 'prev': full_prev(spec, v0), 'targets': tg},
+            {'op': 'farm', 'acts': acts},
+            {'op': 'build', 'vers': v2, 'prev': full_prev(spec, v1), 'targets': tg},
+            {'op': 'farm', 'acts': acts},
+            {'op': 'build', 'vers': v2, 'prev': full_prev(spec, v2), 'targets': tg}]))
+        out.append(('shelve', spec, [
+            {'op': 'targets', 'names': tg},
+            {'op': 'record', 'vers': v0, 'algs': sorted(items_of(spec))},
+            {'op': 'build', 'vers': v0},
+            {'op': 'build', 'vers': v1},
+            {'op': 'farm', 'acts': acts},
+            {'op': 'build', 'vers': v2},
+            {'op': 'farm', 'acts': acts + acts},
+            {'op': 'build', 'vers': v2}]))
+    return out
+
+
 def corpus():
     """the shapes that historically break version-difference code"""
     def sv(name, *vals):
@@ -896,7 +1036,8 @@ def run(ctx, res):
                 'algorithms, task/analysis/regress, 0-3 state vectors with 0-3 values, dependencies, look-alike names, '
                 'factory-function and class-registry packages) written to disk and loaded by pl.scan; histories of '
                 'builds with random bumps, random persisted tables (fake backend) or real pl.version.record on a real '
-                'shelve database; each build goes through the real current/persistent/build and through the Lean '
+                'shelve database; reload histories in which the real next_job_batch/complete leave units executing '
+                'with targets still owed when the next build comes; each build goes through the real current/persistent/build and through the Lean '
                 'model; non-trivial = some but not all algorithms rescheduled; distinct by engine+versions+tables')
     res.assumptions = list(TRUSTED)
     lines, pending = [], []
@@ -905,6 +1046,8 @@ def run(ctx, res):
     try:
         for stream, spec, steps in corpus():
             execute(fk, spec, stream, steps, res, lines, pending, tag='corpus')
+        for stream, spec, steps in reload_corpus():
+            execute(fk, spec, stream, steps, res, lines, pending, tag='reload-corpus')
         cdir = os.path.join(common.VERIF, 'corpus', 'C15')
         for f in sorted(os.listdir(cdir)) if os.path.isdir(cdir) else []:
             if f.endswith('.json'):  # minimised past failures (replay inputs)
@@ -921,6 +1064,18 @@ def run(ctx, res):
         for _ in range(n_sh):
             spec = gen_spec(r, small=r.random() < 0.5)
             execute(fk, spec, 'shelve', gen_shelve_steps(r, spec, r.choice([4, 6, 9])), res, lines, pending)
+            res.count('engine:' + spec['pattern'])
+        rr = common.rng(ctx['seed'], 'C15-reload')
+        for _ in range((60, 250, 1200)[level]):
+            if rr.random() < 0.3:
+                spec = chain_spec(rr.choice(['dep', 'adv']))
+            else:
+                for _try in range(6):  # units below other units are the ones found half released
+                    spec = gen_spec(rr)
+                    if any(a['deps'] for a in spec['algs']):
+                        break
+            stream = 'shelve' if rr.random() < 0.35 else 'tables'
+            execute(fk, spec, stream, gen_reload_steps(rr, spec, stream), res, lines, pending, tag='reload')
             res.count('engine:' + spec['pattern'])
     finally:
         fk.close()
